@@ -17,10 +17,10 @@ from common import hexs, note, rng, run_driver, unhex
 OPTS = {"flags": "0100000", "storage": 32, "procname": "", "sizes": []}
 
 ENVS = [
-    {"A": 2.0, "B": 3.0, "C": 5.0, "X": -4.0, "Y": 0.5, "I": 7.0, "J": 1.0, "N": 0.0, "A$": "HELLO", "B$": "LL", "N$": ""},
-    {"A": -1.0, "B": 0.0, "C": 1.0, "X": 10.0, "Y": -2.5, "I": 3.0, "J": 2.0, "N": 6.0, "A$": "A", "B$": "B", "N$": "12"},
-    {"A": 0.0, "B": -7.0, "C": 2.0, "X": 1.5, "Y": 8.0, "I": -3.0, "J": 5.0, "N": 1.0, "A$": "", "B$": "XYZ", "N$": "Q"},
-    {"A": 5.0, "B": 2.0, "C": -3.0, "X": 0.25, "Y": 3.0, "I": 1.0, "J": -1.0, "N": 2.0, "A$": "AB", "B$": "ABAB", "N$": "7.5"},
+    {"A": 2.0, "B": 3.0, "C": 5.0, "X": -4.0, "Y": 0.5, "I": 7.0, "J": 1.0, "N": 0.0, "A$": "HELLO", "B$": "LL", "N$": "", "NA$": "BOB", "TI$": "T1", "AB$": "QQ", "NA": 11.0, "AB": 21.0},
+    {"A": -1.0, "B": 0.0, "C": 1.0, "X": 10.0, "Y": -2.5, "I": 3.0, "J": 2.0, "N": 6.0, "A$": "A", "B$": "B", "N$": "12", "NA$": "X", "TI$": "T2", "AB$": "", "NA": 12.0, "AB": 22.0},
+    {"A": 0.0, "B": -7.0, "C": 2.0, "X": 1.5, "Y": 8.0, "I": -3.0, "J": 5.0, "N": 1.0, "A$": "", "B$": "XYZ", "N$": "Q", "NA$": "", "TI$": "T3", "AB$": "AB", "NA": 13.0, "AB": 23.0},
+    {"A": 5.0, "B": 2.0, "C": -3.0, "X": 0.25, "Y": 3.0, "I": 1.0, "J": -1.0, "N": 2.0, "A$": "AB", "B$": "ABAB", "N$": "7.5", "NA$": "ZED", "TI$": "T4", "AB$": "Z", "NA": 14.0, "AB": 24.0},
 ]
 SCRIPT = {"INKEY$": "K", "BUTTON": 1, "JOYSTK": 5, "POINT": 2}
 
@@ -150,6 +150,13 @@ def cases(tier):
     for e in ["A=B", "A<>B AND B<C", "A=B OR B=C AND C=X", "NOT A=B", "NOT A=B AND C=X", "NOT (A=B) AND C=X", "(A=B OR B=C) AND NOT (C=X)",
               "A$=B$", "A$<\"B\" OR N$=\"\"", "A$+B$=\"HELLOLL\"", "A", "A+B", "A AND B", "LEN(A$)>2 AND ASC(B$)=76", "INT(A/2)=1",
               "A=>B", "A=<B", "INSTR(1,B$,\"AB\")>1"]:
+        add("cond", e, "probe")
+    # names of two characters, numeric and string, in every context (a name cut in two reads two other variables)
+    for e in ["NA$", "TI$", "NA$+AB$", "AB$+\"X\"", "LEFT$(NA$,2)", "NA$+STR$(NA)"]:
+        add("str", e, "probe")
+    for e in ["NA", "AB+NA", "NA*2-AB", "LEN(NA$)+NA", "ASC(TI$)", "VAL(AB$)+AB"]:
+        add("num", e, "probe")
+    for e in ["NA$=\"BOB\"", "NA$<>AB$", "NA>AB OR TI$=\"T2\""]:
         add("cond", e, "probe")
     # the same literal spelled in a DATA statement with an empty item (whose numbers the tool turns into strings): the
     # operand stays a number
